@@ -95,6 +95,13 @@ unsafe extern "Rust" fn __getrandom_v03_custom(dest: *mut u8, len: usize) -> Res
     RNG.with(|r| {
         let mut r = r.borrow_mut();
         let idx = r.calls.len();
+        // an operation that keeps drawing from a dead or scripted source for ever (a retry loop that swallows the
+        // failure) must not hang the check: after this many consecutive failed / scripted calls the source panics,
+        // which the byte-level API reports as "panic"
+        if !matches!(r.mode, Mode::Os) && idx > 20_000 {
+            drop(r);
+            panic!("the random source was called more than 20000 times by one operation");
+        }
         let ok = match &mut r.mode {
             Mode::Os => {
                 os_fill(buf);
